@@ -6,6 +6,18 @@ HERE = os.path.dirname(os.path.abspath(__file__))
 TECH = "deterministic simulation with fault injection: seeded runs of the real library on a simulated block device (SimDisk); "
 
 CHECKS = {
+ "C02": dict(level="exploration", design="§5 C02",
+   text="Seeded histories of 1..4 GPT/MBR table writes (0..128 sparse/unordered GPT entries, three size spellings, non-BMP names, auto GUIDs from a seeded entropy source, any MBR type/start/size) through Disk.Partition and Table.Write on simulated disks from the minimum to 3 TiB with 512/4096-byte sectors, blank or noise-filled, power-cycled at return; read back with gpt.Read/mbr.Read/partition.Read/Disk.GetPartition against the table model and validated by an independent GPT/MBR parser (both header CRCs, both array CRCs, backup mirrors primary, protective MBR), plus rewrite-of-read-table idempotence.",
+   note="Exploration by seeded sampling: a clean batch is evidence, not proof. Trusted: table model (the spec list itself), independent parser, SimDisk. The codec core has no schedule/clock dimension; the live simulator dimensions are device geometry, predecessor bytes, entropy and the power cycle.",
+   technique=TECH+"seeded table histories vs reference model + independent parser, power cycle at return"),
+ "C13": dict(level="exploration", design="§5 C13",
+   text="Seeded GPT/MBR layouts on a sparse 64 GiB simulated disk (partitions below, across and beyond 4 GiB; one >=4 GiB partition streamed as zeros; 512/4096 logical, physical>logical) driven through WritePartitionContents/ReadPartitionContents/CopyPartitionRaw with simulated caller streams (short/exact/long, 1-byte and odd pieces, (n,EOF), (0,nil), error after k bytes); oracle: success iff exactly the partition size was supplied, device bytes at the partition's own offset equal the stream, nothing outside changes (write guard at the device seam), reads deliver exactly the partition, copy leaves target prefix equal to source and returns.",
+   note="Seeded sampling. CopyPartitionRaw's two goroutines run unscheduled (pipe rendezvous makes the result schedule-independent; device serialised by a mutex; 30 s watchdog). Source/target never overlap.",
+   technique=TECH+"stream fault injection (legal short/odd/erroring readers) + device write guard on sparse >4 GiB geometry"),
+ "C15": dict(level="fault_enumeration", design="§5 C15",
+   text="Per seeded valid base image (GPT or MBR), the full fault family is enumerated: every GPT header field x boundary values x CRC stale/recomputed x primary/backup(primary killed), all pairs of size-determining fields x 6 values x array CRC fixed or not, entry-level corruptions with both CRCs recomputed, truncation of the device at every structure boundary, MBR slot fields and signature, seeded noise; each image is read by partition.Read, gpt.Read and mbr.Read under a read-count and request-size budget with the worker under RLIMIT_AS (death attributed to the case via a shared-memory marker); any GPT returned must match a CRC-valid copy per an independent checker.",
+   note="Enumeration of the stated family per base image, sampling over base images. Budgets: <=4000 device reads, single request <=64x device+1 MiB, 10 s. Allocation failure itself cannot be injected in Go; it is bounded through request sizes and RLIMIT_AS.",
+   technique=TECH+"stored-byte corruption and truncation fault enumeration with read budgets and process-death attribution"),
  "C09": dict(level="fault_enumeration", design="§5 C09",
    text="Seeded (old GPT, new GPT, geometry) pairs; the real Table.Write runs once on a simulated device with a volatile write cache, then every crash point of the recorded write/sync sequence is enumerated with a generating family of persisted-sector subsets (exhaustive when <=12 sectors in flight) and each crash image is read back with gpt.Read/partition.Read and cross-checked by an independent GPT parser. Enumeration of the crash family per pair, sampling over pairs.",
    note="Assumes sector-atomic writes, arbitrary persistence order of un-synced writes, Sync() as the only barrier. Trusted: SimDisk crash-image construction, independent GPT parser, table canonicalisation.",
